@@ -80,74 +80,163 @@ func (p *pkgSrc) fieldType(t, f string) string {
 	return ""
 }
 
-// mergeStanzas recognises, in a merge function with parameters (base, override) and a local
-// `merged`, the statements
-//     if override.F != nil { merged.F = override.F } else if base.F != nil { merged.F = base.F }
-// and returns the fields F in source order. Any other statement that assigns merged.X makes the
-// function untranslatable.
+// mergeStanzas evaluates a merge function with parameters (base, override) and a local `merged` symbolically, field
+// by field: the statements it understands are
+//     merged.F = base.F            merged.F = override.F
+//     if override.F != nil { ... } [else if base.F != nil { ... }] [else { ... }]      (and the same with base first)
+// over assignments of the first two kinds for the same field F.  A field counts as merged when, for each of the four
+// combinations of base.F / override.F being nil or not, merged.F ends up as override.F if that is not nil, else as
+// base.F.  The fields merged are returned in the order of their first mention.  Anything else that touches merged
+// makes the function untranslatable.
 func mergeStanzas(fd *ast.FuncDecl) ([]string, error) {
 	if fd == nil || fd.Body == nil {
 		return nil, fmt.Errorf("function not found")
 	}
-	var out []string
-	isSel := func(e ast.Expr, x, f string) bool {
-		s, ok := e.(*ast.SelectorExpr)
-		if !ok {
-			return false
+	type world struct{ ovSet, baseSet bool }
+	worlds := []world{{false, false}, {false, true}, {true, false}, {true, true}}
+	// value of merged.F in a world: 0 nil, 1 base.F, 2 override.F
+	state := map[string][4]int{}
+	var order []string
+	touch := func(f string) {
+		if _, ok := state[f]; !ok {
+			state[f] = [4]int{}
+			order = append(order, f)
 		}
-		id, ok := s.X.(*ast.Ident)
-		return ok && id.Name == x && (f == "" || s.Sel.Name == f)
 	}
-	selField := func(e ast.Expr) string { return e.(*ast.SelectorExpr).Sel.Name }
-	notNil := func(e ast.Expr, x string) (string, bool) {
-		be, ok := e.(*ast.BinaryExpr)
-		if !ok || be.Op != token.NEQ || !isSel(be.X, x, "") {
-			return "", false
+	selOf := func(e ast.Expr) (x, f string, ok bool) {
+		s, isSel := e.(*ast.SelectorExpr)
+		if !isSel {
+			return "", "", false
 		}
-		if id, ok := be.Y.(*ast.Ident); !ok || id.Name != "nil" {
-			return "", false
+		id, isID := s.X.(*ast.Ident)
+		if !isID {
+			return "", "", false
 		}
-		return selField(be.X), true
+		return id.Name, s.Sel.Name, true
 	}
-	oneAssign := func(b *ast.BlockStmt, from, f string) bool {
-		if b == nil || len(b.List) != 1 {
-			return false
+	// cond: X.F != nil  /  X.F == nil
+	condOf := func(e ast.Expr) (x, f string, neg bool, ok bool) {
+		be, isBin := e.(*ast.BinaryExpr)
+		if !isBin || (be.Op != token.NEQ && be.Op != token.EQL) {
+			return "", "", false, false
 		}
-		as, ok := b.List[0].(*ast.AssignStmt)
-		return ok && len(as.Lhs) == 1 && len(as.Rhs) == 1 && isSel(as.Lhs[0], "merged", f) && isSel(as.Rhs[0], from, f)
+		if id, isNil := be.Y.(*ast.Ident); !isNil || id.Name != "nil" {
+			return "", "", false, false
+		}
+		x, f, ok = selOf(be.X)
+		if !ok || (x != "base" && x != "override") {
+			return "", "", false, false
+		}
+		return x, f, be.Op == token.EQL, true
 	}
-	for _, st := range fd.Body.List {
-		switch s := st.(type) {
-		case *ast.IfStmt:
-			f, ok := notNil(s.Cond, "override")
-			if !ok {
-				// the two leading nil guards: if base == nil { return override } / if override == nil { return base }
-				if be, ok := s.Cond.(*ast.BinaryExpr); ok && be.Op == token.EQL {
-					continue
+	var exec func(list []ast.Stmt, active [4]bool, field string) error
+	exec = func(list []ast.Stmt, active [4]bool, field string) error {
+		for _, st := range list {
+			switch s := st.(type) {
+			case *ast.AssignStmt:
+				if len(s.Lhs) != 1 || len(s.Rhs) != 1 {
+					return fmt.Errorf("unrecognised assignment in %s", fd.Name.Name)
 				}
-				return nil, fmt.Errorf("unrecognised if statement in %s", fd.Name.Name)
-			}
-			el, ok := s.Else.(*ast.IfStmt)
-			if !ok || !oneAssign(s.Body, "override", f) {
-				return nil, fmt.Errorf("stanza for %s in %s has an unexpected shape", f, fd.Name.Name)
-			}
-			f2, ok := notNil(el.Cond, "base")
-			if !ok || f2 != f || !oneAssign(el.Body, "base", f) || el.Else != nil {
-				return nil, fmt.Errorf("stanza for %s in %s has an unexpected else branch", f, fd.Name.Name)
-			}
-			out = append(out, f)
-		case *ast.AssignStmt:
-			// merged := &T{}
-			if len(s.Lhs) == 1 {
 				if id, ok := s.Lhs[0].(*ast.Ident); ok && id.Name == "merged" {
-					continue
+					if field != "" {
+						return fmt.Errorf("merged is replaced under a condition in %s", fd.Name.Name)
+					}
+					continue // merged := &T{}
 				}
+				x, f, ok := selOf(s.Lhs[0])
+				if !ok || x != "merged" {
+					return fmt.Errorf("unrecognised assignment in %s", fd.Name.Name)
+				}
+				if field != "" && f != field {
+					return fmt.Errorf("the stanza for %s in %s assigns %s", field, fd.Name.Name, f)
+				}
+				rx, rf, ok := selOf(s.Rhs[0])
+				if !ok || rf != f || (rx != "base" && rx != "override") {
+					return fmt.Errorf("merged.%s is assigned something else than base.%s / override.%s in %s", f, f, f, fd.Name.Name)
+				}
+				touch(f)
+				v := state[f]
+				for w := range worlds {
+					if !active[w] {
+						continue
+					}
+					switch {
+					case rx == "base" && worlds[w].baseSet:
+						v[w] = 1
+					case rx == "override" && worlds[w].ovSet:
+						v[w] = 2
+					default:
+						v[w] = 0
+					}
+				}
+				state[f] = v
+			case *ast.IfStmt:
+				x, f, neg, ok := condOf(s.Cond)
+				if !ok || s.Init != nil {
+					// the leading nil guards: if base == nil { return override } / if override == nil { return base }
+					if be, isBin := s.Cond.(*ast.BinaryExpr); isBin && be.Op == token.EQL && field == "" {
+						if _, isID := be.X.(*ast.Ident); isID {
+							continue
+						}
+					}
+					return fmt.Errorf("unrecognised if statement in %s", fd.Name.Name)
+				}
+				if field != "" && f != field {
+					return fmt.Errorf("the stanza for %s in %s tests %s", field, fd.Name.Name, f)
+				}
+				touch(f)
+				var thenW, elseW [4]bool
+				for w := range worlds {
+					set := worlds[w].baseSet
+					if x == "override" {
+						set = worlds[w].ovSet
+					}
+					holds := set != neg
+					thenW[w] = active[w] && holds
+					elseW[w] = active[w] && !holds
+				}
+				if err := exec(s.Body.List, thenW, f); err != nil {
+					return err
+				}
+				switch e := s.Else.(type) {
+				case nil:
+				case *ast.BlockStmt:
+					if err := exec(e.List, elseW, f); err != nil {
+						return err
+					}
+				case *ast.IfStmt:
+					if err := exec([]ast.Stmt{e}, elseW, f); err != nil {
+						return err
+					}
+				}
+			case *ast.ReturnStmt:
+				continue
+			default:
+				return fmt.Errorf("unrecognised statement in %s", fd.Name.Name)
 			}
-			return nil, fmt.Errorf("unrecognised assignment in %s", fd.Name.Name)
-		case *ast.ReturnStmt:
-			continue
-		default:
-			return nil, fmt.Errorf("unrecognised statement in %s", fd.Name.Name)
+		}
+		return nil
+	}
+	if err := exec(fd.Body.List, [4]bool{true, true, true, true}, ""); err != nil {
+		return nil, err
+	}
+	var out []string
+	for _, f := range order {
+		v := state[f]
+		good := true
+		for w := range worlds {
+			want := 0
+			if worlds[w].ovSet {
+				want = 2
+			} else if worlds[w].baseSet {
+				want = 1
+			}
+			if v[w] != want {
+				good = false
+			}
+		}
+		if good {
+			out = append(out, f)
 		}
 	}
 	return out, nil
